@@ -466,6 +466,73 @@ def fullKey {C A : Type} (cls : C) (args : A) : C × A := (cls, args)
     `get_origin` forgets the parameters. -/
 def headKey {C P A : Type} (cls : C × P) (args : A) : C × A := (cls.1, args)
 
+/-! ### 4b. Lifetime of cache keys
+
+  A Memoize cache may outlive the funsors it was asked about (one dict reused over successive
+  `memoize(cache)` blocks).  Funsors hash and compare by identity (`__hash__ = id`), so a cache lookup
+  is a lookup by ADDRESS.  That is sound only because the key tuple holds the argument OBJECTS: a live
+  key keeps its arguments alive, and CPython never hands out the address of a live object.  If the key
+  held `id(arg)` instead, the address of a collected argument could be recycled for a new funsor and the
+  lookup would return the result computed for the old one. -/
+
+/-- A funsor as the memo cache sees it: its address, and its content (what the base result depends on). -/
+structure Obj where
+  addr : Nat
+  val : Nat
+  deriving DecidableEq, Repr
+
+inductive LEv where
+  | alloc (o : Obj)        -- the caller creates a funsor outside the memoizing context
+  | drop (addr : Nat)      -- the caller drops its reference
+  | request (o : Obj)      -- a memoized call with argument `o` (the caller holds `o`)
+  deriving DecidableEq, Repr
+
+structure LState where
+  user : List Obj                 -- objects the caller holds
+  cache : List (Obj × Nat)        -- key (the argument it was computed for) and result
+
+/-- Addresses the allocator must not hand out: the caller's objects and, iff the key holds its
+    argument objects (`keepsAlive`), the arguments inside cache keys. -/
+def liveAddrs (keepsAlive : Bool) (s : LState) : List Nat :=
+  s.user.map (·.addr) ++ (if keepsAlive then s.cache.map (·.1.addr) else [])
+
+/-- `cache.get(key)`: by address. -/
+def lcacheGet : List (Obj × Nat) → Nat → Option Nat
+  | [], _ => none
+  | (k, r) :: rest, a => if k.addr = a then some r else lcacheGet rest a
+
+/-- One event; `none` = the history is impossible (allocation at a live address, request for an object
+    the caller does not hold). -/
+def lstep (keepsAlive : Bool) (base : Nat → Nat) (s : LState) : LEv → Option (LState × Option Nat)
+  | LEv.alloc o =>
+    if o.addr ∈ liveAddrs keepsAlive s then none else some ({ s with user := o :: s.user }, none)
+  | LEv.drop a => some ({ s with user := s.user.filter (fun u => u.addr != a) }, none)
+  | LEv.request o =>
+    if o ∈ s.user then
+      match lcacheGet s.cache o.addr with
+      | some r => some (s, some r)
+      | none => some ({ s with cache := (o, base o.val) :: s.cache }, some (base o.val))
+    else none
+
+/-- Every request of a (possible) history is answered with the base result for its own argument. -/
+def lcorrect (keepsAlive : Bool) (base : Nat → Nat) : LState → List LEv → Bool
+  | _, [] => true
+  | s, e :: es =>
+    match lstep keepsAlive base s e with
+    | none => true
+    | some (s', resp) =>
+      (match e with
+        | LEv.request o => resp == some (base o.val)
+        | _ => true) && lcorrect keepsAlive base s' es
+
+/-- Responses of a history (driver). -/
+def lrun (keepsAlive : Bool) (base : Nat → Nat) : LState → List LEv → Option (List (Option Nat))
+  | _, [] => some []
+  | s, e :: es =>
+    match lstep keepsAlive base s e with
+    | none => none
+    | some (s', resp) => (lrun keepsAlive base s' es).map (resp :: ·)
+
 /-! ## 5. sequential_reduce (terms.py:537-560) -/
 
 /-- `itertools.product(*(range(size) …))` with the variable names attached. -/
